@@ -52,7 +52,7 @@ def case(ctx):
 
     rng = ctx.rng
     mode = rng.choice(["connected", "connected", "unbounded-connected", "disjoint", "disjoint", "special"])
-    curved = rng.random() < 0.25
+    curved = rng.random() < 0.15
     num = None if curved else rng.choice(["int", "frac", "float"])
     if mode == "special":
         return special_case(ctx)
